@@ -65,7 +65,7 @@ def shard(ctx):
         rnd = random.Random(ctx.seed)
         files = sorted(files, key=lambda e: e['path'])
         rnd.shuffle(files)
-        files = files[:max(16, int(160 * float(__import__('os').environ.get('VERIF_SCALE', '1'))))]
+        files = files[:max(16, int(260 * float(__import__('os').environ.get('VERIF_SCALE', '1'))))]
     mine = corpus.shard_slice(files, ctx.index, ctx.nshards)
     saved = {}
     worst = {}
